@@ -65,10 +65,18 @@ func budgetSource(data []byte, budget int) *Source {
 // subjects: each takes a (possibly malformed) stream and must return (err or nil) without panic/hang.
 
 func subjPatcher(stream []byte, oldDir, outDir string, fresh bool) (err error) {
+	return subjPatcherWL(stream, oldDir, outDir, fresh, nil)
+}
+
+// subjPatcherWL is the patch applier with an optional whitelist (partial application).
+func subjPatcherWL(stream []byte, oldDir, outDir string, fresh bool, whitelist map[int64]bool) (err error) {
 	src := seeksource.NewWithSize(budgetSource(stream, 20*len(stream)+5000), int64(len(stream)))
 	p, err := patcher.New(src, Quiet())
 	if err != nil {
 		return err
+	}
+	if whitelist != nil {
+		p.SetSourceIndexWhitelist(whitelist)
 	}
 	pool := fspool.New(p.GetTargetContainer(), oldDir)
 	var b bowl.Bowl
@@ -368,6 +376,14 @@ func TestC10(t *testing.T) {
 				out := filepath.Join(dir, fmt.Sprintf("out%d", outN))
 				p, h = guarded(func() { subjPatcher(stream, oldDir, out, true) })
 				if report("C10/patcher", "patcher(fresh bowl)", what, p, h, stream) {
+					return true
+				}
+			}
+			// partial application: nothing, and every other file
+			for wi, wl := range []map[int64]bool{{}, {0: true, 2: true, 4: true}} {
+				wl := wl
+				p, h = guarded(func() { subjPatcherWL(stream, oldDir, "", false, wl) })
+				if report("C10/patcher", fmt.Sprintf("patcher(dry bowl, whitelist #%d)", wi), what, p, h, stream) {
 					return true
 				}
 			}
